@@ -26,6 +26,7 @@ mod c20;
 mod adev;
 mod adevgen;
 mod mac;
+mod nbdev;
 mod oracle;
 mod macgen;
 mod macsuites;
